@@ -546,4 +546,187 @@ theorem cinv_run (c : Cond) (s : List Bool) (h : CInv c) : CInv (c.run s) := by
     · simp only [he]; exact ih c h
 
 end Sync
+
+/-! ## condition variable, any number of waiters -/
+section SyncN
+open AslModel.Thread.Sync AslModel.Thread.SyncN
+
+structure NInv (c : CondN) : Prop where
+  sleepOk : ∀ i, c.w i = WPc.sleeping → (c.s = SPc.start ∨ c.s = SPc.locked ∨ c.s = SPc.predSet)
+  wHolds : ∀ i, c.mutex = Holder.waiter i ↔ c.w i = WPc.locked
+  sHolds : c.mutex = Holder.signaler ↔ (c.s = SPc.locked ∨ c.s = SPc.predSet ∨ c.s = SPc.signalled)
+  predIff : c.pred = true ↔ (c.s = SPc.predSet ∨ c.s = SPc.signalled ∨ c.s = SPc.done)
+  noRelocked : ∀ i, c.w i ≠ WPc.relocked
+  holderLt : ∀ j, c.mutex = Holder.waiter j → j < c.n
+
+theorem ninv_init (n : Nat) : NInv (init n) := by
+  refine ⟨by simp [init], by simp [init], by simp [init], by simp [init], by simp [init], by simp [init]⟩
+
+theorem ninv_step (c : CondN) (a : Option Nat) (h : NInv c) (he : enabled c a = true) : NInv (step c a) := by
+  obtain ⟨h1, h2, h3, h4, h5, h6⟩ := h
+  cases a with
+  | some i =>
+    simp only [enabled, Bool.and_eq_true, decide_eq_true_eq] at he
+    obtain ⟨hi, he⟩ := he
+    unfold step
+    cases hw : c.w i with
+    | start =>
+      rw [hw] at he; simp only [beq_iff_eq] at he
+      simp only [hw]
+      refine ⟨?_, ?_, ?_, h4, ?_, ?_⟩
+      · intro j hj; simp only [upd] at hj; by_cases hji : j = i
+        · subst hji; simp at hj
+        · simp only [hji, if_false] at hj; exact h1 j hj
+      · intro j; simp only [upd]; by_cases hji : j = i
+        · subst hji; simp
+        · simp only [hji, if_false]
+          constructor
+          · intro hx; injection hx with hx; exact absurd hx.symm hji
+          · intro hx; have := (h2 j).mpr hx; rw [he] at this; cases this
+      · simp only; rw [← h3, he]; simp
+      · intro j; simp only [upd]; by_cases hji : j = i
+        · subst hji; simp
+        · simp only [hji, if_false]; exact h5 j
+      · intro j hx; simp only at hx; injection hx with hx; subst hx; exact hi
+    | locked =>
+      have hm : c.mutex = Holder.waiter i := (h2 i).mpr hw
+      have hs : ¬ (c.s = SPc.locked ∨ c.s = SPc.predSet ∨ c.s = SPc.signalled) := by
+        intro hx; have := h3.mpr hx; rw [hm] at this; cases this
+      simp only [hw]
+      by_cases hp : c.pred = true
+      · simp only [hp, if_true]
+        refine ⟨?_, ?_, ?_, by simpa [hp] using h4, ?_, ?_⟩
+        · intro j hj; simp only [upd] at hj; by_cases hji : j = i
+          · subst hji; simp at hj
+          · simp only [hji, if_false] at hj; exact h1 j hj
+        · intro j; simp only [upd]; by_cases hji : j = i
+          · subst hji; simp
+          · simp only [hji, if_false]
+            constructor
+            · intro hx; cases hx
+            · intro hx; have := (h2 j).mpr hx; rw [hm] at this; injection this with this; exact absurd this.symm hji
+        · simp only; constructor
+          · intro hx; cases hx
+          · intro hx; exact absurd hx hs
+        · intro j; simp only [upd]; by_cases hji : j = i
+          · subst hji; simp
+          · simp only [hji, if_false]; exact h5 j
+        · intro j hx; cases hx
+      · have hp' : c.pred = false := by simpa using hp
+        simp only [hp', Bool.false_eq_true, if_false]
+        have hsd : c.s ≠ SPc.done := by
+          intro hx; have := h4.mpr (Or.inr (Or.inr hx)); rw [hp'] at this; cases this
+        refine ⟨?_, ?_, ?_, by simpa [hp'] using h4, ?_, ?_⟩
+        · intro j hj; simp only [upd] at hj; by_cases hji : j = i
+          · -- the waiter goes to sleep holding the mutex with pred false: the signaler has not started
+            cases hsc : c.s with
+            | start => exact Or.inl rfl
+            | locked => exact Or.inr (Or.inl rfl)
+            | predSet => exact Or.inr (Or.inr rfl)
+            | signalled => exact absurd (Or.inr (Or.inr hsc)) hs
+            | done => exact absurd hsc hsd
+          · simp only [hji, if_false] at hj; exact h1 j hj
+        · intro j; simp only [upd]; by_cases hji : j = i
+          · subst hji; simp
+          · simp only [hji, if_false]
+            constructor
+            · intro hx; cases hx
+            · intro hx; have := (h2 j).mpr hx; rw [hm] at this; injection this with this; exact absurd this.symm hji
+        · simp only; constructor
+          · intro hx; cases hx
+          · intro hx; exact absurd hx hs
+        · intro j; simp only [upd]; by_cases hji : j = i
+          · subst hji; simp
+          · simp only [hji, if_false]; exact h5 j
+        · intro j hx; cases hx
+    | woken =>
+      rw [hw] at he; simp only [beq_iff_eq] at he
+      simp only [hw]
+      refine ⟨?_, ?_, ?_, h4, ?_, ?_⟩
+      · intro j hj; simp only [upd] at hj; by_cases hji : j = i
+        · subst hji; simp at hj
+        · simp only [hji, if_false] at hj; exact h1 j hj
+      · intro j; simp only [upd]; by_cases hji : j = i
+        · subst hji; simp
+        · simp only [hji, if_false]
+          constructor
+          · intro hx; injection hx with hx; exact absurd hx.symm hji
+          · intro hx; have := (h2 j).mpr hx; rw [he] at this; cases this
+      · simp only; rw [← h3, he]; simp
+      · intro j; simp only [upd]; by_cases hji : j = i
+        · subst hji; simp
+        · simp only [hji, if_false]; exact h5 j
+      · intro j hx; simp only at hx; injection hx with hx; subst hx; exact hi
+    | sleeping => rw [hw] at he; cases he
+    | relocked => rw [hw] at he; cases he
+    | done => rw [hw] at he; cases he
+  | none =>
+    simp only [enabled] at he
+    unfold step
+    cases hs : c.s with
+    | start =>
+      rw [hs] at he; simp only [beq_iff_eq] at he
+      simp only [hs]
+      refine ⟨?_, ?_, by simp, ?_, h5, by intro j hx; cases hx⟩
+      · intro j hj; exact Or.inr (Or.inl rfl)
+      · intro j; constructor
+        · intro hx; cases hx
+        · intro hx; have := (h2 j).mpr hx; rw [he] at this; cases this
+      · simp only; rw [h4, hs]; simp
+    | locked =>
+      simp only [hs]
+      refine ⟨?_, h2, by rw [h3, hs]; simp, by simp, h5, h6⟩
+      intro j hj; exact Or.inr (Or.inr rfl)
+    | predSet =>
+      simp only [hs]
+      refine ⟨?_, ?_, by rw [h3, hs]; simp, by rw [h4, hs]; simp, ?_, h6⟩
+      · intro j hj
+        by_cases hx : c.w j = WPc.sleeping
+        · simp [hx] at hj
+        · simp only [hx, if_false] at hj
+      · intro j
+        by_cases hx : c.w j = WPc.sleeping
+        · simp only [hx, if_true]
+          constructor
+          · intro hy; have := (h2 j).mp hy; rw [hx] at this; cases this
+          · intro hy; cases hy
+        · simp only [hx, if_false]; exact h2 j
+      · intro j
+        by_cases hx : c.w j = WPc.sleeping
+        · simp [hx]
+        · simp only [hx, if_false]; exact h5 j
+    | signalled =>
+      have hm : c.mutex = Holder.signaler := h3.mpr (Or.inr (Or.inr hs))
+      simp only [hs]
+      refine ⟨?_, ?_, by simp, by rw [h4, hs]; simp, h5, by intro j hx; cases hx⟩
+      · intro j hj; have := h1 j hj; rw [hs] at this; simp at this
+      · intro j; constructor
+        · intro hx; cases hx
+        · intro hx; have := (h2 j).mpr hx; rw [hm] at this; cases this
+    | done => rw [hs] at he; cases he
+
+theorem ninv_run (c : CondN) (r : List (Option Nat)) (h : NInv c) : NInv (run c r) := by
+  induction r generalizing c with
+  | nil => exact h
+  | cons a r ih =>
+    unfold run
+    by_cases he : enabled c a = true
+    · simp only [he, if_true]; exact ih _ (ninv_step c a h he)
+    · simp only [he]; exact ih c h
+
+theorem condn_step_n (c : CondN) (a : Option Nat) : (step c a).n = c.n := by
+  cases a with
+  | some i => simp only [step]; split <;> (try split) <;> rfl
+  | none => simp only [step]; split <;> rfl
+
+theorem condn_run_n (c : CondN) (r : List (Option Nat)) : (run c r).n = c.n := by
+  induction r generalizing c with
+  | nil => rfl
+  | cons a r ih =>
+    unfold run
+    split
+    · rw [ih, condn_step_n]
+    · exact ih c
+
+end SyncN
 end AslProofs.Thread
